@@ -222,7 +222,7 @@ func (s *Scratch) RunAll(progs []*Prog) {
 			cmd.Env = []string{"GOMAXPROCS=1", "GOTRACEBACK=single"}
 			cmd.Dir = s.Dir
 			var so, se bytes.Buffer
-			cmd.Stdout, cmd.Stderr = &so, &capWriter{buf: &se, max: 8192}
+			cmd.Stdout, cmd.Stderr = &capWriter{buf: &so, max: 8 << 20}, &capWriter{buf: &se, max: 8192}
 			done := make(chan error, 1)
 			if err := cmd.Start(); err != nil {
 				p.Stderr = err.Error()
